@@ -165,7 +165,7 @@ func validItems(items []Item, depth int) error {
 			}
 		case "blk":
 			switch it.V {
-			case "", "twice", "never", "with":
+			case "", "twice", "never", "with", "meth":
 			case "arg":
 				if !litRE.MatchString(it.T) || strings.Contains(it.T, "<%") {
 					return fmt.Errorf("bad label")
@@ -275,7 +275,19 @@ func opener(it Item) string {
 	return "<%= "
 }
 
-var blkHelper = map[string]string{"": "rec", "twice": "rec2", "never": "rec0", "with": "recw", "arg": "reca"}
+var blkHelper = map[string]string{"": "rec", "twice": "rec2", "never": "rec0", "with": "recw", "arg": "reca", "meth": "hx.Rec"}
+
+// methRec: a block helper that is a method of a value in the context (hx.Rec() { ... }).
+type methRec struct{ rec *[]string }
+
+func (m methRec) Rec(help plush.HelperContext) (template.HTML, error) {
+	s, err := help.Block()
+	if err != nil {
+		return "", err
+	}
+	*m.rec = append(*m.rec, s)
+	return template.HTML("[" + s + "]"), nil
+}
 
 func blkCall(it Item) string {
 	switch it.V {
@@ -885,7 +897,8 @@ func check(r *vk.Run, c Case) *vk.Fail {
 			recorded = append(recorded, s)
 			return template.HTML("[" + s + "]"), nil
 		}
-		rd["reca"] = func(label string, help plush.HelperContext) (template.HTML, error) { // an argument before the block
+		rd["hx"] = methRec{rec: &recorded}
+	rd["reca"] = func(label string, help plush.HelperContext) (template.HTML, error) { // an argument before the block
 			s, err := help.Block()
 			if err != nil {
 				return "", err
@@ -1293,7 +1306,7 @@ func (g *G) item(sc *scope) []Item {
 		in := *sc
 		in.nest++
 		in.top = false
-		it := Item{K: "blk", V: g.pick([]string{"", "", "", "twice", "never", "with", "arg"}, "bv")}
+		it := Item{K: "blk", V: g.pick([]string{"", "", "", "twice", "never", "with", "arg", "meth"}, "bv")}
 		switch it.V {
 		case "arg":
 			it.T = g.pick(labels, "bl")
@@ -1711,7 +1724,7 @@ var presE = []string{"", "sub/", "v1.2/", "Admin/_", "./", "a.js/"}
 var ctsNames = []string{"", "text/html; charset=utf-8", "application/javascript", "text/javascript; charset=utf-8", "text/javascript;charset=UTF-8", "text/plain"}
 
 // blkCase: every block helper variant x tag opener x block body x place of the call.
-var blkVariants = []string{"", "twice", "never", "with", "arg"}
+var blkVariants = []string{"", "twice", "never", "with", "arg", "meth"}
 
 func blkCase(variant string, alt bool, body, place int) Case {
 	b := Item{K: "blk", V: variant, Alt: alt}
@@ -1900,7 +1913,7 @@ func TestProp(t *testing.T) {
 
 	// (E) block helper variants
 	nBlk := int64(len(blkVariants) * 2 * 4 * 4)
-	r.Subspace(fmt.Sprintf("block helpers: %d variants (once, twice, never, in a child scope with data, with an argument) x {output, silent tag} x 4 bodies x 4 places", len(blkVariants)), nBlk, true)
+	r.Subspace(fmt.Sprintf("block helpers: %d variants (once, twice, never, in a child scope with data, with an argument, as a method) x {output, silent tag} x 4 bodies x 4 places", len(blkVariants)), nBlk, true)
 	r.Parallel(nBlk, 0, func(i int64) {
 		place := int(i % 4)
 		i /= 4
